@@ -1,6 +1,7 @@
 import PqVerif.Lemmas.FockRepLaws
 import PqVerif.Lemmas.GaussCongr
 import PqVerif.Lemmas.IndexLaws
+import PqVerif.Lemmas.Intertwine
 
 /-!
 # C01 — all bosonic simulators agree on photon-number statistics (partial)
@@ -10,9 +11,15 @@ Proved: the recurrence by which the PureFock / Fock simulators lift an interfero
 evaluates directly (through the kernel proved in C04) — hence these three simulators agree on every
 passive circuit and number-state input, in every sector; passive gates never mix particle numbers;
 the Gaussian simulator's passive update is the unitary congruence (C07).
-NOT proved: that ACTIVE gates in Fock space (squeezing / displacement matrices by recurrence) and the
-Gaussian → Fock probabilities (hafnians) agree with the symplectic picture (metaplectic representation):
-these are compared on the real simulators only.
+ACTIVE single-mode gates: the matrices the Fock simulators build for `Displacement` and `Squeezing` (column
+recurrences of `create_single_mode_displacement_matrix` / `create_single_mode_squeezing_matrix`, proved equal to the
+closed forms `dispEntry` / `sqEntry` for every cutoff: `displacement_loop`, `squeezing_loop`) transform the ladder
+operators exactly as the Gaussian simulator transforms the moments: `a D = D (a + α)`, `a S = S (P a + A a†)` with `P`,
+`A` the blocks regenerated from `gates.py` (`displacement_heisenberg`, `squeezing_heisenberg`), and the vacuum column
+of `D` is the coherent state. These are entrywise identities of the un-truncated matrices.
+NOT proved: the effect of truncating these matrices at the cutoff, multi-mode active gates through the
+Bloch–Messiah decomposition (contracts in C15, connectors in C09) and the Gaussian → Fock probabilities (hafnians):
+these are compared on the real simulators.
 -/
 namespace Pq.C01
 open BigOperators Pq.FockRep Pq.Kernel Pq.Gauss Matrix
@@ -49,5 +56,44 @@ theorem gauss_passive_is_congruence {F : Type} [CommRing F] [StarRing F] {d k : 
     gamma (applyPassive T modes s) = Smat T 0 modes * gamma s * (Smat T 0 modes)ᴴ := by
   rw [applyPassive_eq T modes hinj s hC hG]
   exact applyLinear_eq_congr T 0 modes hinj s hC hG (by simpa using hT) (by simp)
+
+
+/-! ## active single-mode gates: Fock picture = symplectic picture -/
+
+/-- the loop of `create_single_mode_displacement_matrix` computes the closed form, every cutoff and entry -/
+theorem displacement_loop (c : ℕ) (r φ : ℝ) (m n : ℕ) :
+    Pq.DispRec.entry c r φ m n = Pq.GradLaws.dispEntry m n r φ :=
+  Pq.DispRec.entry_eq_dispEntry c r φ m n
+
+/-- the loop of `create_single_mode_squeezing_matrix` computes the closed form, every cutoff and entry -/
+theorem squeezing_loop (c : ℕ) (r φ : ℝ) (m n : ℕ) :
+    Pq.SqueezeRec.entry c r φ m n = Pq.SqueezeRec.sqEntry m n r φ :=
+  Pq.SqueezeRec.sq_loop_closed_form c r φ m n
+
+open Pq.GradLaws in
+/-- `a D = D (a + α)` and `a† D = D (a† + conj α)`, `α = r e^{iφ}`: the displacement matrix shifts the ladder operators by
+the amount the Gaussian simulator adds to the mean; its vacuum column is the coherent state -/
+theorem displacement_heisenberg (m n : ℕ) (r φ : ℝ) :
+    ((Real.sqrt ((m + 1 : ℕ) : ℝ) : ℂ) * dispEntry (m + 1) n r φ
+        = (Real.sqrt (n : ℝ) : ℂ) * dispEntry m (n - 1) r φ
+          + ((r : ℂ) * Complex.exp (Complex.I * φ)) * dispEntry m n r φ) ∧
+    ((Real.sqrt (m : ℝ) : ℂ) * dispEntry (m - 1) n r φ
+        = (Real.sqrt ((n + 1 : ℕ) : ℝ) : ℂ) * dispEntry m (n + 1) r φ
+          + (starRingEnd ℂ) ((r : ℂ) * Complex.exp (Complex.I * φ)) * dispEntry m n r φ) ∧
+    (dispEntry m 0 r φ = Complex.exp (-(r : ℂ) ^ 2 / 2) * ((r : ℂ) * Complex.exp (Complex.I * φ)) ^ m
+        / (Real.sqrt (m.factorial : ℝ) : ℂ)) :=
+  ⟨Pq.Intertwine.disp_annihilation m n r φ, Pq.Intertwine.disp_creation m n r φ, Pq.Intertwine.disp_vacuum m r φ⟩
+
+open Pq.SqueezeRec Pq.Gen.Gates in
+/-- `a S = S (P a + A a†)` and its adjoint, with `P`, `A` the passive / active block of `pq.Squeezing` as regenerated
+from `gates.py` — the blocks the Gaussian simulator applies to the moments -/
+theorem squeezing_heisenberg (m n : ℕ) (r φ : ℝ) :
+    ((Real.sqrt ((m + 1 : ℕ) : ℝ) : ℂ) * sqEntry (m + 1) n r φ
+        = Squeezing_passive r φ 0 0 * (Real.sqrt (n : ℝ) : ℂ) * sqEntry m (n - 1) r φ
+          + Squeezing_active r φ 0 0 * (Real.sqrt ((n + 1 : ℕ) : ℝ) : ℂ) * sqEntry m (n + 1) r φ) ∧
+    ((Real.sqrt (m : ℝ) : ℂ) * sqEntry (m - 1) n r φ
+        = (starRingEnd ℂ) (Squeezing_passive r φ 0 0) * (Real.sqrt ((n + 1 : ℕ) : ℝ) : ℂ) * sqEntry m (n + 1) r φ
+          + (starRingEnd ℂ) (Squeezing_active r φ 0 0) * (Real.sqrt (n : ℝ) : ℂ) * sqEntry m (n - 1) r φ) :=
+  ⟨Pq.Intertwine.squeeze_annihilation m n r φ, Pq.Intertwine.squeeze_creation m n r φ⟩
 
 end Pq.C01
